@@ -310,6 +310,22 @@ def builder_header_choice(rng):
     h = gen_desc_header(rng, 0)
     return h, (b"" if pyspec.header_empty(h) else enc(pyspec.header_map(h)))
 
+def single_field_headers():
+    """headers holding exactly one populated field (each of the eight), used wherever "empty vs non-empty"
+    decides the wire form"""
+    return [d_header(alg=d_reg(1, -7)), d_header(crit=[d_reg(1, 4)]), d_header(ctype=d_reg(1, 50)), d_header(kid=b"k"),
+            d_header(iv=b"i"), d_header(piv=b"p"), d_header(csigs=[d_signature(d_protected(None, D_EMPTY_HEADER), D_EMPTY_HEADER, b"s")]),
+            d_header(rest=[(I(99), I(1))]), d_header(rest=[(T("x"), NULL)]),
+            d_header(csigs=[d_signature(d_protected(None, D_EMPTY_HEADER), D_EMPTY_HEADER, b"s"), d_signature(d_protected(None, d_header(kid=b"q")), D_EMPTY_HEADER, b"t")])]
+
+def single_field_prots():
+    """(description, exact bytes) of built protected headers with one populated field, plus the empty one"""
+    out = [(d_protected(None, D_EMPTY_HEADER), b"")]
+    for h in single_field_headers():
+        d = d_protected(None, h)
+        out.append((d, pyspec.protected_bytes(d)))
+    return out
+
 def cases_C03(rng, tier):
     out = []
     lens = Q(tier, LEN_CLASSES_Q, LEN_CLASSES_T)
@@ -322,6 +338,12 @@ def cases_C03(rng, tier):
         want = pyspec.sig_structure(ctx, bb, sb, aad, pl)
         out.append(case("sigdata", ctx, enc(body), enc(sign), aad, pl, fam="sig_structure_data",
                         expect="ok " + want.hex(), tuple=(ctx, bb, sb, aad, pl)))
+    for body, bb in single_field_prots():
+        for sign, sb in [(NULL, None)] + single_field_prots()[:6]:
+            for ctx in pyspec.SIG_CTX:
+                want = pyspec.sig_structure(ctx, bb, sb, b"a", b"p")
+                out.append(case("sigdata", ctx, enc(body), enc(sign), b"a", b"p", fam="single-field-headers",
+                                expect="ok " + want.hex(), tuple=(ctx, bb, sb, b"a", b"p")))
     for _ in range(Q(tier, 40, 400)):
         # "always serializable" is an assumption: a built header that cannot be encoded must be refused
         # (documented expect), never signed as if it were something else
@@ -395,6 +417,10 @@ def cases_C04(rng, tier):
         aad, pl = blob(rng, lens), blob(rng, lens)
         want = pyspec.mac_structure(ctx, pb, aad, pl)
         out.append(case("macdata", ctx, enc(p), aad, pl, fam="mac_structure_data", expect="ok " + want.hex(), tuple=(ctx, pb, aad, pl)))
+    for p, pb in single_field_prots():
+        for ctx in pyspec.MAC_CTX:
+            want = pyspec.mac_structure(ctx, pb, b"a", b"p")
+            out.append(case("macdata", ctx, enc(p), b"a", b"p", fam="single-field-headers", expect="ok " + want.hex(), tuple=(ctx, pb, b"a", b"p")))
     for _ in range(Q(tier, 300, 3000)):
         p, pb = gen_prot_desc(rng)
         aad, pl, tag = blob(rng, lens), blob(rng, lens), rbytes(rng)
@@ -442,6 +468,10 @@ def cases_C05(rng, tier):
         aad = blob(rng, lens)
         want = pyspec.enc_structure(ctx, pb, aad)
         out.append(case("encdata", ctx, enc(p), aad, fam="enc_structure_data", expect="ok " + want.hex(), tuple=(ctx, pb, aad)))
+    for p, pb in single_field_prots():
+        for ctx in pyspec.ENC_CTX:
+            want = pyspec.enc_structure(ctx, pb, b"a")
+            out.append(case("encdata", ctx, enc(p), b"a", fam="single-field-headers", expect="ok " + want.hex(), tuple=(ctx, pb, b"a")))
     for _ in range(Q(tier, 300, 3000)):
         p, pb = gen_prot_desc(rng)
         aad, ct = blob(rng, lens), rbytes(rng)
@@ -770,10 +800,7 @@ def cases_C11(rng, tier):
             if ty in TAGGED_TYPES:
                 out.append(case("enctag", ty, enc(d), fam="enctag:" + ty, expect="ok " + (head(6, MSG_TAG[ty]) + want).hex()))
     # omission rules field by field: a protected header holding exactly one populated field
-    singles = [d_header(alg=d_reg(1, -7)), d_header(crit=[d_reg(1, 4)]), d_header(ctype=d_reg(1, 50)), d_header(kid=b"k"),
-               d_header(iv=b"i"), d_header(piv=b"p"), d_header(csigs=[d_signature(d_protected(None, D_EMPTY_HEADER), D_EMPTY_HEADER, b"s")]),
-               d_header(rest=[(I(99), I(1))]), d_header(rest=[(T("x"), NULL)]),
-               d_header(csigs=[d_signature(d_protected(None, D_EMPTY_HEADER), D_EMPTY_HEADER, b"s"), d_signature(d_protected(None, d_header(kid=b"q")), D_EMPTY_HEADER, b"t")])]
+    singles = single_field_headers()
     for h in singles:
         for ty in MSG_TYPES:
             d = gen_desc_msg(rng, ty)
